@@ -273,4 +273,13 @@ def rule_flow_roles(ctx):
                 "Files::sort receives the command-line list `%s` unmodified" % hq.render(a))
 
 
-RULES = [rule_ext_table, rule_det3, rule_accessors, rule_flow_roles]
+def rule_mirror_shared(ctx):
+    """`swapping the two programs swaps exactly axioms and conjectures`: the two sides go through sibling pipelines and mirrored routing (C03)"""
+    from . import c03
+    sub = type(ctx)(ctx.prop, ctx.tier, ctx.facts)
+    c03.rule_route(sub)
+    c03.rule_pipe(sub)
+    ctx.obls.extend(o for o in sub.obls if o["key"].startswith(("FLOW-ROUTE:mirror", "FLOW-PIPE:siblings", "FLOW-PIPE:left", "FLOW-PIPE:right", "FLOW-ROUTE:forward", "FLOW-ROUTE:backward")))
+
+
+RULES = [rule_ext_table, rule_det3, rule_accessors, rule_flow_roles, rule_mirror_shared]
